@@ -709,6 +709,7 @@ Definition exec_micro (e : exec) (me : nat) (m : micro) : mres :=
   | MYield => do_yield e me
 
   | MUnsyncLoad a =>
+      let e := causality_inc e me in
       match get_atomic e a with
       | None => MFail e (PanicModel 16)
       | Some s =>
@@ -721,6 +722,7 @@ Definition exec_micro (e : exec) (me : nat) (m : micro) : mres :=
       end
 
   | MWithMut a v =>
+      let e := causality_inc e me in
       match get_atomic e a with
       | None => MFail e (PanicModel 16)
       | Some s =>
